@@ -4,6 +4,8 @@
   auto_benign.py unparse          re-emit every module with ast.unparse (positions, comments, quoting, parentheses change)
   auto_benign.py rename-locals    rename every plain local variable `v` of every function to `v_` (parameters, globals,
                                   nonlocals, names captured by nested functions/comprehension-free closures are left alone)
+  auto_benign.py swap-branches    `if c: A else: B` -> `if not c: B else: A` for every plain if/else
+  auto_benign.py hoist-returns    `return <expr>` -> `tmp = <expr>; return tmp` for call / comparison / boolean / arithmetic results
   auto_benign.py swap-compare     write `a == b` with constant/None left operand the other way round where the operator is
                                   symmetric (==, !=, is, is not)
 
@@ -95,6 +97,45 @@ class Swapper(ast.NodeTransformer):
         return node
 
 
+class BranchSwapper(ast.NodeTransformer):
+    """if c: A else: B  ->  if not c: B else: A   (only for a plain else, not for elif chains)"""
+    def visit_If(self, node):
+        self.generic_visit(node)
+        if node.orelse and not (len(node.orelse) == 1 and isinstance(node.orelse[0], ast.If)):
+            t = node.test
+            nt = t.operand if isinstance(t, ast.UnaryOp) and isinstance(t.op, ast.Not) else ast.UnaryOp(op=ast.Not(), operand=t)
+            return ast.copy_location(ast.If(test=nt, body=node.orelse, orelse=node.body), node)
+        return node
+
+
+class Hoister(ast.NodeTransformer):
+    """`return <call or comparison>` -> `result_ = <expr>; return result_`  and  `if <call-containing test>:` -> `cond_ = <test>; if cond_:` (first statement level only,
+    never inside loops' tests; evaluation order is unchanged)."""
+    def __init__(self):
+        self.n = 0
+
+    def _body(self, stmts):
+        out = []
+        for s in stmts:
+            s = self.visit(s)
+            if isinstance(s, ast.Return) and isinstance(s.value, (ast.Call, ast.Compare, ast.BoolOp, ast.BinOp)):
+                self.n += 1
+                nm = f"result_{self.n}_"
+                out.append(ast.copy_location(ast.Assign(targets=[ast.Name(id=nm, ctx=ast.Store())], value=s.value), s))
+                out.append(ast.copy_location(ast.Return(value=ast.Name(id=nm, ctx=ast.Load())), s))
+            else:
+                out.append(s)
+        return out
+
+    def generic_visit(self, node):
+        super().generic_visit(node)
+        for f in ("body", "orelse", "finalbody"):
+            v = getattr(node, f, None)
+            if isinstance(v, list) and v and isinstance(v[0], ast.stmt) and not isinstance(node, (ast.Module, ast.ClassDef)):
+                setattr(node, f, self._body(v))
+        return node
+
+
 def transform(mode, root):
     n = 0
     for r, d, fs in os.walk(root):
@@ -108,6 +149,10 @@ def transform(mode, root):
                 tree = Renamer(_scope_locals(src)).visit(tree)
             elif mode == "swap-compare":
                 tree = Swapper().visit(tree)
+            elif mode == "swap-branches":
+                tree = BranchSwapper().visit(tree)
+            elif mode == "hoist-returns":
+                tree = Hoister().visit(tree)
             ast.fix_missing_locations(tree)
             out = ast.unparse(tree) + "\n"
             compile(out, p, "exec")
